@@ -881,6 +881,22 @@ fn families(ctx: &Ctx, sink: Sink) {
             let o = Opts::default();
             family_descriptors(thorough, &o, sink);
         }
+        "C12" => {
+            let n = oddities().len();
+            sink(scenario_item("robust:", "base"));
+            for i in 0..n {
+                sink(scenario_item(&format!("robust:{}", i), oddities()[i].0));
+            }
+            if thorough {
+                for i in 0..n {
+                    for j in 0..n {
+                        if i != j {
+                            sink(scenario_item(&format!("robust:{},{}", i, j), ""));
+                        }
+                    }
+                }
+            }
+        }
         "C09" => {
             let o = Opts::default();
             family_in_marks(if thorough { 4 } else { 3 }, &o, sink);
@@ -1227,8 +1243,246 @@ fn scenario_readonly(ctx: &Ctx, out: &mut WorkerOut, index: usize) {
     }
 }
 
+// ------------------------------------------------------------------------------------------ C12
+
+/// (name, where, xml snippet, required error event class or "")
+/// where: "content" = inside the e1 transition body, "cond" = cond attribute of the e1 transition,
+/// "state" = child element of state s1 (entered on e1), "data" = <data> at the root, "scxml-attr" = attribute of <scxml>
+fn oddities() -> Vec<(&'static str, &'static str, String, &'static str)> {
+    let mut v: Vec<(&'static str, &'static str, String, &'static str)> = vec![];
+    let mut c = |n: &'static str, x: &str, e: &'static str| v.push((n, "content", x.to_string(), e));
+    // unknown / malformed targets and types
+    c("send-unknown-session", r##"<send event="x" target="#_scxml_99999"/>"##, "error.communication");
+    c("send-unknown-session-expr", r##"<send event="x" targetexpr="'#_scxml_' + 99999"/>"##, "error.communication");
+    c("send-parent-without-parent", r##"<send event="x" target="#_parent"/>"##, "");
+    c("send-unknown-invokeid", r##"<send event="x" target="#_nochild"/>"##, "error.communication");
+    c("send-malformed-session-target", r##"<send event="x" target="#_scxml_abc"/>"##, "error.*");
+    c("send-malformed-session-target-empty", r##"<send event="x" target="#_scxml_"/>"##, "error.*");
+    c("send-unsupported-target", r##"<send event="x" target="bogus://nowhere"/>"##, "error.execution");
+    c("send-unsupported-type", r##"<send event="x" type="http://unsupported.example/type"/>"##, "error.execution");
+    c("send-unsupported-typeexpr", r##"<send event="x" typeexpr="'nonsense'"/>"##, "error.execution");
+    c("send-internal-with-delay", r##"<send event="x" target="#_internal" delay="1s"/>"##, "error.execution");
+    // erroring expressions in every attribute of send
+    c("send-bad-eventexpr", r##"<send eventexpr="undefq + 1"/>"##, "error.execution");
+    c("send-bad-targetexpr", r##"<send event="x" targetexpr="undefq + 1"/>"##, "error.execution");
+    c("send-bad-typeexpr", r##"<send event="x" typeexpr="undefq + 1"/>"##, "error.execution");
+    c("send-bad-delayexpr", r##"<send event="x" delayexpr="undefq + 1"/>"##, "error.execution");
+    c("send-illegal-delay-text", r##"<send event="x" delayexpr="'abc'"/>"##, "error.execution");
+    c("send-illegal-delay-unit", r##"<send event="x" delayexpr="'5 parsecs'"/>"##, "error.execution");
+    c("send-negative-delay", r##"<send event="x" delayexpr="'-5s'"/>"##, "error.execution");
+    c("send-huge-delay", r##"<send event="x" id="big" delayexpr="'99999999999999999999d'"/>"##, "");
+    c("send-bad-namelist", r##"<send event="x" namelist="undefq"/>"##, "error.execution");
+    c("send-bad-param-expr", r##"<send event="x"><param name="p" expr="undefq + 1"/></send>"##, "error.execution");
+    c("send-bad-param-location", r##"<send event="x"><param name="p" location="undefq"/></send>"##, "error.execution");
+    c("send-bad-content-expr", r##"<send event="x"><content expr="undefq + 1"/></send>"##, "error.execution");
+    c("send-idlocation-not-a-location", r##"<send event="x" idlocation="1 + 1"/>"##, "");
+    c("send-syntax-error-expr", r##"<send eventexpr="1 + * )"/>"##, "error.execution");
+    c("cancel-bad-sendidexpr", r##"<cancel sendidexpr="undefq + 1"/>"##, "");
+    c("cancel-unknown-sendid", r##"<cancel sendid="never-sent"/>"##, "");
+    // erroring expressions elsewhere
+    c("if-bad-cond", r##"<if cond="undefq + 1"><raise event="no"/></if>"##, "error.execution");
+    c("if-syntax-error-cond", r##"<if cond="((("><raise event="no"/></if>"##, "error.execution");
+    c("foreach-bad-array", r##"<foreach array="undefq" item="i"><raise event="no"/></foreach>"##, "error.execution");
+    c("foreach-readonly-item", r##"<foreach array="[1,2]" item="_sessionid"><raise event="no"/></foreach>"##, "");
+    c("assign-bad-location", r##"<assign location="undefq.x.y" expr="1"/>"##, "error.execution");
+    c("assign-syntax-error-location", r##"<assign location="1 +" expr="1"/>"##, "error.execution");
+    c("assign-bad-expr", r##"<assign location="v" expr="undefq + 1"/>"##, "error.execution");
+    c("log-bad-expr", r##"<log expr="undefq + 1"/>"##, "error.execution");
+    c("script-bad", r##"<script>undefq + 1</script>"##, "error.execution");
+    c("script-syntax-error", r##"<script>1 + * )</script>"##, "error.execution");
+    c("script-self-assign", r##"<script>v = v</script>"##, "");
+    c("script-modulo-zero", r##"<script>v = 1 % 0</script>"##, "error.execution");
+    c("in-unknown-state", r##"<if cond="In('nostate')"><raise event="no"/></if>"##, "");
+    c("in-wrong-argument", r##"<if cond="In(5)"><raise event="no"/></if>"##, "error.execution");
+    c("raise-odd-name", r##"<raise event="done.invoke.x"/>"##, "");
+    v.push(("cond-bad", "cond", "undefq + 1".into(), "error.execution"));
+    v.push(("cond-syntax-error", "cond", "1 + * )".into(), "error.execution"));
+    v.push(("cond-in-unknown", "cond", "In('nostate')".into(), ""));
+    let mut st = |n: &'static str, x: &str, e: &'static str| v.push((n, "state", x.to_string(), e));
+    st("invoke-missing-file", r##"<invoke type="scxml" src="file:/nonexistent/child.scxml"/>"##, "");
+    st("invoke-missing-relative-file", r##"<invoke src="nonexistent_child.scxml"/>"##, "");
+    st("invoke-content-not-a-document", r##"<invoke><content>this is not a document</content></invoke>"##, "");
+    st("invoke-content-wrong-root", r##"<invoke><content><notscxml/></content></invoke>"##, "");
+    st("invoke-content-malformed-child", r##"<invoke><content><scxml xmlns="http://www.w3.org/2005/07/scxml"><state id="c"><transition type="sideways" target="c"/></state></scxml></content></invoke>"##, "");
+    st("invoke-unsupported-type", r##"<invoke type="http://unsupported.example/type" src="x.scxml"/>"##, "");
+    st("invoke-bad-typeexpr", r##"<invoke typeexpr="undefq + 1" src="x.scxml"/>"##, "error.execution");
+    st("invoke-bad-srcexpr", r##"<invoke srcexpr="undefq + 1"/>"##, "error.execution");
+    st("invoke-bad-namelist", r##"<invoke src="x.scxml" namelist="undefq"/>"##, "error.execution");
+    st("invoke-bad-param", r##"<invoke src="x.scxml"><param name="p" expr="undefq + 1"/></invoke>"##, "error.execution");
+    st("invoke-bad-content-expr", r##"<invoke><content expr="undefq + 1"/></invoke>"##, "error.execution");
+    st("invoke-no-src-no-content", r##"<invoke id="nothing"/>"##, "");
+    st("invoke-child-unsupported-datamodel", r##"<invoke><content><scxml xmlns="http://www.w3.org/2005/07/scxml" datamodel="xpath"><state id="c"/></scxml></content></invoke>"##, "");
+    st("onentry-send-to-own-invoke-before-start", r##"<onentry><send event="x" target="#_kid"/></onentry><invoke id="kid" src="nonexistent_child.scxml"/>"##, "");
+    st("donedata-bad-param", r##"<state id="inner"><transition event="fin" target="innerf"/></state><final id="innerf"><donedata><param name="p" expr="undefq + 1"/></donedata></final>"##, "");
+    v.push(("data-bad-expr", "data", r##"<data id="x" expr="undefq + 1"/>"##.into(), "error.execution"));
+    v.push(("data-syntax-error", "data", r##"<data id="x" expr="1 + * )"/>"##.into(), "error.execution"));
+    v.push(("data-bad-text", "data", r##"<data id="x">undefq + 1</data>"##.into(), "error.execution"));
+    v.push(("unsupported-datamodel", "scxml-attr", r##"datamodel="xpath""##.into(), ""));
+    v.push(("empty-datamodel-name", "scxml-attr", r##"datamodel="""##.into(), ""));
+    v
+}
+
+fn c12_doc(odd: &[(&str, &str, String, &str)]) -> String {
+    let mut content = String::new();
+    let mut cond = String::new();
+    let mut state = String::new();
+    let mut data = String::new();
+    let mut attr = String::from("datamodel=\"rfsm-expression\"");
+    for (_, wh, x, _) in odd {
+        match *wh {
+            "content" => content.push_str(x),
+            "cond" => cond = format!(" cond=\"{}\"", vh::xmlrender::esc_attr_default(x)),
+            "state" => state.push_str(x),
+            "data" => data.push_str(x),
+            _ => attr = x.clone(),
+        }
+    }
+    format!(
+        r##"<scxml {ns} {attr} name="odd">
+<datamodel><data id="v" expr="0"/>{data}</datamodel>
+<state id="s0">
+ <transition event="e1"{cond} target="s1"><script>mark('before')</script>{content}<script>mark('after')</script></transition>
+ <transition event="e1" target="s1"><script>mark('fallback')</script></transition>
+</state>
+<state id="s1">
+ {state}
+ <transition event="e2 fin" target="s0"/>
+ <transition event="error" ><script>mark('saw', _event.name)</script></transition>
+</state>
+</scxml>"##,
+        ns = XMLNS,
+        attr = attr,
+        data = data,
+        cond = cond,
+        content = content,
+        state = state
+    )
+}
+
+fn scenario_robust(ctx: &Ctx, out: &mut WorkerOut, index: usize, which: &[usize]) {
+    let all = oddities();
+    let odd: Vec<(&str, &str, String, &str)> = which.iter().map(|i| all[*i].clone()).collect();
+    let names: Vec<&str> = odd.iter().map(|o| o.0).collect();
+    let label = names.join("+");
+    let xml = c12_doc(&odd);
+    let replay = json!({"engine":"e1","index": index, "xml": xml, "oddities": names});
+    let mut run = match Run::start(&xml, std::time::Duration::from_secs(15)) {
+        Ok(r) => r,
+        Err(_) => {
+            // not accepted by the reader: outside the property
+            out.add("documents_rejected_by_reader", 1);
+            return;
+        }
+    };
+    out.add("runs", 1);
+    let events = ["e1", "e2", "zz", "e1", "fin", "e2", "error.execution", "e1"];
+    let mut idle = 1;
+    let mut sent: Vec<&str> = vec![];
+    let mut w = run.wait_idle(idle);
+    for e in events {
+        if w != Wait::Idle {
+            break;
+        }
+        sent.push(e);
+        run.send_name(e);
+        idle += 1;
+        w = run.wait_idle(idle);
+        out.add("edges", 1);
+    }
+    let recs = run.log.snapshot();
+    let seen_errors: Vec<String> = recs
+        .iter()
+        .filter_map(|(t, r)| match r {
+            Rec::IRecv(e) if *t == 0 && e.name.starts_with("error.") => Some(e.name.clone()),
+            _ => None,
+        })
+        .collect();
+    match w {
+        Wait::Idle => {}
+        Wait::Timeout => {
+            out.violation(ctx, "session-stops-responding", &format!("wedge:{}", label), &format!("after events {:?} the session never reached its idle point again | {}", sent, label), replay.clone());
+            run.finish();
+            return;
+        }
+        Wait::Died => {
+            let p = take_panics();
+            let site = p.last().map(|x| x.2.clone()).unwrap_or_default();
+            out.violation(ctx, "session-thread-panicked", &format!("panic:{}:{}", label, site.rsplit('/').next().unwrap_or("")), &format!("after events {:?}: {:?} | {}", sent, p, label), replay.clone());
+            run.finish();
+            return;
+        }
+        Wait::Ended => {
+            out.violation(ctx, "session-ended-unexpectedly", &format!("ended:{}", label), &format!("after events {:?} the session terminated | {}", sent, label), replay.clone());
+            run.finish();
+            return;
+        }
+    }
+    // required error event classes
+    for (n, _, _, req) in &odd {
+        // with two oddities one can prevent the other from being executed (aborted block, guard
+        // counted as false): the required error class is checked on single-oddity documents only
+        if req.is_empty() || odd.len() != 1 {
+            continue;
+        }
+        let ok = if *req == "error.*" { !seen_errors.is_empty() } else { seen_errors.iter().any(|e| e == req) };
+        out.add("ref_comparisons", 1);
+        if !ok {
+            out.violation(
+                ctx,
+                "error-event-missing",
+                &format!("no-error-event:{}", n),
+                &format!("oddity {} must appear as {} on the internal queue; internal error events seen: {:?}", n, req, seen_errors),
+                replay.clone(),
+            );
+        }
+    }
+    // poisoned locks
+    if run.session.global_data.is_poisoned() {
+        out.violation(ctx, "lock-poisoned", &format!("poisoned-global:{}", label), &label, replay.clone());
+    }
+    if run.executor.state.arc.is_poisoned() {
+        out.violation(ctx, "lock-poisoned", &format!("poisoned-executor:{}", label), &label, replay.clone());
+    }
+    // must still be cancellable
+    // a child session thread that unwound (recorder dropped without interpret() returning);
+    // panics that rFSM catches itself are not failures
+    let caught_or_not = take_panics();
+    // let started child sessions reach their idle point (or end) before judging them
+    let _ = run.log.wait(
+        |i| (1..i.threads()).all(|t| i.idle[t] > 0 || i.ended[t] || i.dropped[t]),
+        std::time::Duration::from_secs(5),
+    );
+    let dead_children: Vec<usize> = {
+        let g = run.log.inner.lock().unwrap();
+        (1..g.threads()).filter(|i| g.dropped[*i] && !g.ended[*i]).collect()
+    };
+    if !dead_children.is_empty() {
+        let site = caught_or_not.last().map(|x| x.2.clone()).unwrap_or_default();
+        out.violation(ctx, "child-session-thread-panicked", &format!("thread-panic:{}:{}", label, site.rsplit('/').next().unwrap_or("")), &format!("{:?} | {}", caught_or_not, label), replay.clone());
+    }
+    let log = run.log.clone();
+    let wd = run.watchdog;
+    let panicked = run.finish();
+    let ended = log.wait(|i| i.threads() > 0 && (i.ended[0] || i.dropped[0]), wd);
+    if panicked {
+        out.violation(ctx, "session-thread-panicked", &format!("panic-at-cancel:{}", label), &format!("{:?} | {}", take_panics(), label), replay.clone());
+    } else if !ended {
+        out.violation(ctx, "not-cancellable", &format!("not-cancellable:{}", label), &label, replay);
+    }
+    out.add("states", 1);
+    out.outcomes.insert(format!("{}|{:?}", odd.iter().map(|o| o.3).collect::<Vec<_>>().join(","), seen_errors.len().min(3)));
+    if out.samples.is_empty() {
+        out.sample(json!({"oddities": names, "events": sent, "internal_error_events": seen_errors, "xml": xml}));
+    }
+}
+
 fn run_scenario(ctx: &Ctx, out: &mut WorkerOut, index: usize, name: &str, _label: &str) {
     out.add("documents", 1);
+    if let Some(rest) = name.strip_prefix("robust:") {
+        let which: Vec<usize> = rest.split(',').filter(|x| !x.is_empty()).map(|x| x.parse().unwrap()).collect();
+        scenario_robust(ctx, out, index, &which);
+        return;
+    }
     match name {
         "event-fields" => scenario_event_fields(ctx, out, index),
         "readonly" => scenario_readonly(ctx, out, index),
@@ -1409,6 +1663,10 @@ fn main() {
         ),
         "C09" => (
             "In(x) for every state x evaluated by a mark in every onentry, onexit and transition body of every kinded state tree up to the bound with every candidate transition (complete reachable graphs, values compared with the reference configuration at that content position); In(x)/!In(x) guards on the candidate transitions for rfsm-expression and the null data model; early and late binding with data at root, state, nested and parallel levels, re-entry and modification; scripted scenarios: the fields of _event read back for host events with params / content / ids, raised, #_internal-sent, self-sent and platform events (compared with the received event object), and 18 write attempts on _sessionid, _name, _ioprocessors, _event and its fields through <assign> and <script> (each must raise exactly one error.execution and change nothing)",
+            common_assume.clone(),
+        ),
+        "C12" => (
+            "a conformant base document with exactly one oddity at a time (thorough: every ordered pair) from a list of 70 oddities of the two kinds the property names: unknown / malformed / unsupported send targets and types, a parent that does not exist, invokes that can not be started (missing file, non-document content, malformed child, unsupported type or data model), and an erroring or syntactically wrong expression in every attribute that takes one (cond, if, foreach, assign location/expr, log, script, data, send eventexpr/targetexpr/typeexpr/delayexpr/namelist/param/content/idlocation, cancel, invoke typeexpr/srcexpr/namelist/param/content, donedata), each driven through 8 external events (including unmatched ones and an external event named like a platform event) and then cancelled; oracle: session thread alive and back at its idle point after every event, required error event class on the internal queue, no thread panics, locks not poisoned, cancel terminates the session",
             common_assume.clone(),
         ),
         "C19" => (
